@@ -242,7 +242,7 @@ class FloatCtx:
             if s.get("k") == "Let":
                 n = A.binding_name(s["pat"])
                 init = A.strip(s["init"])
-                t = A.ftxt(init)
+                t = str(A.ftxt(init))  # dispatch tests on one expression: literal
                 if ".into_node(self)" in t:
                     continue  # `let a = a.into_node(self)?` keeps the value
                 if "self.get_op(" in t:
